@@ -242,12 +242,7 @@ func ruleGRDfusion(w *World, r *Report) {
 	}
 	fn := w.SSAFunc(fi.Obj)
 	// alpha: multiplications use a value merged with the clamp constant, never the raw parameter
-	var alpha *ssa.Parameter
-	for _, p := range fn.Params {
-		if p.Name() == "alpha" {
-			alpha = p
-		}
-	}
+	alpha := paramNamed(fn, "alpha", 0, func(t types.Type) bool { return basicKind(t) == types.Float64 })
 	if alpha == nil {
 		// the arguments travel in a parameter record: alpha is its field. A field lives in memory, so the clamp is a
 		// conditional store of a constant into it; every arithmetic use must be dominated by the test that guards that store
@@ -557,7 +552,7 @@ func ruleTBLmodels(w *World, r *Report) {
 			}
 		}
 		o := calleeObj(&c.Call)
-		return o != nil && relPkg(o) == "pkg/engine" && strings.HasPrefix(o.Name(), "calculate")
+		return o != nil && relPkg(o) == "pkg/engine" && strings.HasPrefix(canonName(o), "calculate")
 	}
 	leqZero := func(param string) func(ssa.Instruction) bool {
 		return func(in ssa.Instruction) bool {
